@@ -2,7 +2,9 @@
 
 Correspondence: random histories over the public API (`Node.shard`, `set_pipeline_stage`,
 `Model.add_/remove_device_configuration(cascade)`, `replace_input_with`, `resize_inputs/outputs`,
-`Graph.append/remove(safe)`, `Value.name=`, `Model.clone`, serialize->bytes->deserialize) are run on
+`Graph.append/remove(safe)` on root graphs and on subgraphs, attaching subgraphs to nodes
+(`node.attributes.add(AttrGraph(...))`), `Value.name=`, `Model.clone`, serialize->bytes->deserialize;
+nodes in subgraphs use and shard outer-scope values) are run on
 the real objects and on the Lean model `IrVerif.Device` (driver command `device.run`); after every
 operation the complete canonical state is compared: io lists and `device_configurations` of every
 node, `Model.device_configurations`, the output of the internal checker
@@ -23,7 +25,7 @@ raising call leaves every object unchanged and `shard` / `set_pipeline_stage` ra
 invalid requests; a round trip / clone reproduces the annotations on the new objects.
 
 A third, oracle-only stream runs the same oracles on a model with an `If` node (two subgraphs that
-use outer-scope values) and a function (no Lean correspondence: the model has one flat graph).
+use outer-scope values) and a *function* (functions are not in the Lean model).
 """
 from __future__ import annotations
 
@@ -42,15 +44,20 @@ THEOREMS = [
     "IrVerif.Device.C19_reject_atomic",
     "IrVerif.Device.C19_names_current",
     "IrVerif.Device.C19_serializable",
+    "IrVerif.Device.C19_roundtrip_faithful",
 ]
 ASSUMPTIONS = [
-    "one flat graph per model: subgraphs, functions, graph outputs and initializers are not modelled or generated",
+    "graphs nest (a node may own subgraphs whose nodes use outer-scope values; clone and the by-name "
+    "resolution through all enclosing scopes are inside the model and the theorems); functions, graph outputs "
+    "and initializers are not modelled (functions are exercised by the oracle-only stream)",
+    "a model's flat node / graph lists in the Lean world are compared as sets with graph.all_nodes() / "
+    "Model.graphs() after every operation; checker output and serialized fields are compared per node",
     "annotation records are those the public API creates (shard / set_pipeline_stage); hand-built "
     "NodeDeviceConfiguration/ShardingSpec records (value=None, configuration=None, group maps, several "
     "simple_shardings per axis) are outside the alphabet",
     "value names None and '' are identified (the harness names anonymous values '' right after creation); "
     "every generated value carries a tensor type so that its shape is serialized",
-    "in-alphabet stream: configurations passed to shard/set_pipeline_stage are registered on the node's model, "
+    "in-alphabet stream (= the Lean `Pre`, evaluated by the driver for every operation): configurations passed to shard/set_pipeline_stage are registered on the node's model, "
     "device indices are within num_devices, sharded values have non-empty names that are unique within the "
     "model, shapes are not edited after creation, nodes are not re-attached to a graph after removal, "
     "remove_device_configuration is called with cascade=True; the wild stream drops these restrictions and is "
@@ -89,8 +96,8 @@ class Real:
         from onnx_ir import _multi_device, serde
 
         self.ir, self.md, self.serde = ir, _multi_device, serde
-        self.values, self.cfgs, self.nodes, self.models = [], [], [], []
-        self.vid, self.cid, self.nid = {}, {}, {}
+        self.values, self.cfgs, self.nodes, self.graphs, self.models = [], [], [], [], []
+        self.vid, self.cid, self.nid, self.gid = {}, {}, {}, {}
 
     # ---- registration
     def reg_value(self, v):
@@ -113,6 +120,27 @@ class Real:
             self.nid[id(n)] = len(self.nodes)
             self.nodes.append(n)
         return self.nid[id(n)]
+
+    def reg_graph(self, g):
+        if id(g) not in self.gid:
+            self.gid[id(g)] = len(self.graphs)
+            self.graphs.append(g)
+        return self.gid[id(g)]
+
+    @staticmethod
+    def subgraphs_of(node):
+        """the graphs held by GRAPH attributes, in attribute order"""
+        out = []
+        for attr in node.attributes.values():
+            if attr.type.name == "GRAPH":
+                out.append(attr.as_graph())
+            elif attr.type.name == "GRAPHS":
+                out.extend(attr.as_graphs())
+        return out
+
+    @staticmethod
+    def all_nodes(model):
+        return list(model.graph.all_nodes())
 
     # ---- canonical state
     @staticmethod
@@ -147,32 +175,68 @@ class Real:
             "i": [None if v is None else self.vid[id(v)] for v in node.inputs],
             "o": [self.vid[id(v)] for v in node.outputs],
             "d": self.node_dev(node),
+            "s": [self.gid[id(g)] for g in self.subgraphs_of(node)],
         }
 
     def check_kinds(self, model):
         return [_kind(m) for m in self.md._check_device_configurations(model)]
 
+    def check_by_node(self, model):
+        """violation kinds grouped by node (ascending node id); node names are unique per model"""
+        nodes = self.all_nodes(model)
+        by_name = {}
+        for n in nodes:
+            by_name.setdefault(n.name, []).append(n)
+        res = {self.nid[id(n)]: [] for n in nodes}
+        for msg in self.md._check_device_configurations(model):
+            mm = re.match(r"Node '([^']*)'", msg)
+            cands = by_name.get(mm.group(1), []) if mm else []
+            if len(cands) != 1:
+                res.setdefault(-1, []).append(_kind(msg))
+            else:
+                res[self.nid[id(cands[0])]].append(_kind(msg))
+        return [[k, res[k]] for k in sorted(res)]
+
+    @staticmethod
+    def _proto_nodes(graph_proto):
+        """all NodeProtos of a GraphProto, nested ones included"""
+        for np_ in graph_proto.node:
+            yield np_
+            for at in np_.attribute:
+                if at.HasField("g"):
+                    yield from Real._proto_nodes(at.g)
+                for g in at.graphs:
+                    yield from Real._proto_nodes(g)
+
+    @staticmethod
+    def _proto_dev(np_):
+        cfgs = []
+        for dc in np_.device_configurations:
+            specs = []
+            for sp in dc.sharding_spec:
+                dims = []
+                for sd in sp.sharded_dim:
+                    assert len(sd.simple_sharding) == 1
+                    ss = sd.simple_sharding[0]
+                    dim = ss.dim_value if ss.HasField("dim_value") else (ss.dim_param if ss.HasField("dim_param") else None)
+                    dims.append([sd.axis, dim, ss.num_shards])
+                specs.append([sp.tensor_name, list(sp.device), dims])
+            cfgs.append([dc.configuration_id, specs, dc.pipeline_stage if dc.HasField("pipeline_stage") else None])
+        return cfgs
+
     def ser(self, model):
+        """serialized device fields per node (ascending node id), or "raised" """
         try:
             proto = self.serde.serialize_model(model)
         except Exception:
             return "raised", None
-        res = []
-        for np_ in proto.graph.node:
-            cfgs = []
-            for dc in np_.device_configurations:
-                specs = []
-                for sp in dc.sharding_spec:
-                    dims = []
-                    for sd in sp.sharded_dim:
-                        assert len(sd.simple_sharding) == 1
-                        ss = sd.simple_sharding[0]
-                        dim = ss.dim_value if ss.HasField("dim_value") else (ss.dim_param if ss.HasField("dim_param") else None)
-                        dims.append([sd.axis, dim, ss.num_shards])
-                    specs.append([sp.tensor_name, list(sp.device), dims])
-                cfgs.append([dc.configuration_id, specs, dc.pipeline_stage if dc.HasField("pipeline_stage") else None])
-            res.append(cfgs)
-        return res, proto
+        nodes = self.all_nodes(model)
+        pn = list(self._proto_nodes(proto.graph))
+        # serialization keeps the all_nodes() order
+        if len(pn) != len(nodes) or any(a.name != (b.name or "") for a, b in zip(pn, nodes)):
+            return "node-mismatch", proto
+        res = {self.nid[id(n)]: self._proto_dev(np_) for n, np_ in zip(nodes, pn)}
+        return [[k, res[k]] for k in sorted(res)], proto
 
     def state(self):
         models = []
@@ -182,11 +246,12 @@ class Real:
             self.protos.append(proto)
             models.append(
                 {
-                    "i": [self.vid[id(v)] for v in m.graph.inputs],
-                    "n": [self.nid[id(n)] for n in m.graph],
+                    "g": self.gid[id(m.graph)],
+                    "gs": sorted(self.gid[id(g)] for g in m.graphs()),
+                    "n": sorted(self.nid[id(n)] for n in self.all_nodes(m)),
                     "c": [self.cid[id(c)] for c in m.device_configurations],
                     "ir": m.ir_version,
-                    "chk": self.check_kinds(m),
+                    "chk": self.check_by_node(m),
                     "ser": ser,
                 }
             )
@@ -194,6 +259,7 @@ class Real:
             "values": [[v.name or "", self._shape(v)] for v in self.values],
             "cfgs": [[c.name, c.num_devices, list(c.device_names)] for c in self.cfgs],
             "nodes": [self.node_state(n) for n in self.nodes],
+            "graphs": [{"i": [self.vid[id(v)] for v in g.inputs], "n": [self.nid[id(n)] for n in g]} for g in self.graphs],
             "models": models,
         }
 
@@ -208,9 +274,49 @@ class Real:
 
     def model_of(self, node):
         for m in self.models:
-            if node.graph is m.graph:
+            if any(node.graph is g for g in m.graphs()):
                 return m
         return None
+
+    def model_of_graph(self, graph):
+        for m in self.models:
+            if any(graph is g for g in m.graphs()):
+                return m
+        return None
+
+    # ---- registration walks (same per-heap creation order as the Lean model)
+    def _reg_clone_graph(self, g):
+        for v in g.inputs:
+            self.reg_value(v)
+        for n in g:
+            for sg in self.subgraphs_of(n):
+                self._reg_clone_graph(sg)
+            for v in n.outputs:
+                self.reg_value(v)
+            self.reg_node(n)
+        self.reg_graph(g)
+
+    def _reg_deser_graph(self, g):
+        for v in g.inputs:
+            self.reg_value(v)
+        for n in g:
+            for v in n.outputs:
+                if v.name:
+                    self.reg_value(v)
+        for n in g:
+            for v in n.inputs:
+                if v is not None:
+                    self.reg_value(v)
+            for v in n.outputs:
+                self.reg_value(v)
+            for nc in n.device_configurations:
+                for s in nc.sharding_specs:
+                    self.reg_value(s.value)
+                self.reg_cfg(nc.configuration)
+            for sg in self.subgraphs_of(n):
+                self._reg_deser_graph(sg)
+            self.reg_node(n)
+        self.reg_graph(g)
 
     # ---- operations (return "ok"/"raised", out)
     def apply(self, op):
@@ -225,22 +331,28 @@ class Real:
         ir = self.ir
         k = op["op"]
         if k == "newModel":
-            g = ir.Graph([], [], nodes=[], opset_imports={"": 20}, name=f"g{len(self.models)}")
+            g = ir.Graph([], [], nodes=[], opset_imports={"": 20}, name=f"g{len(self.graphs)}")
+            self.reg_graph(g)
             self.models.append(ir.Model(g, ir_version=op["ir"]))
         elif k == "newInput":
             v = self.mk_value(op["name"], op["shape"])
-            self.models[op["m"]].graph.inputs.append(v)
+            self.graphs[op["g"]].inputs.append(v)
             self.reg_value(v)
+        elif k == "newSubgraph":
+            node = self.nodes[op["n"]]
+            g = ir.Graph([], [], nodes=[], name=f"g{len(self.graphs)}")
+            node.attributes.add(ir.AttrGraph(f"sub{len(self.graphs)}", g))
+            self.reg_graph(g)
         elif k == "newNode":
             ins = [None if i is None else self.values[i] for i in op["ins"]]
             outs = [self.mk_value(o["name"], o["shape"]) for o in op["outs"]]
             node = ir.Node("", "Op", ins, outputs=outs, name=f"n{len(self.nodes)}")
-            self.models[op["m"]].graph.append(node)
+            self.graphs[op["g"]].append(node)
             for v in outs:
                 self.reg_value(v)
             self.reg_node(node)
         elif k == "removeNode":
-            self.models[op["m"]].graph.remove(self.nodes[op["n"]], safe=op["safe"])
+            self.graphs[op["g"]].remove(self.nodes[op["n"]], safe=op["safe"])
         elif k == "rename":
             self.values[op["v"]].name = op["name"]
         elif k == "addCfg":
@@ -278,12 +390,7 @@ class Real:
                 self.reg_value(v)
         elif k == "clone":
             m2 = self.models[op["m"]].clone()
-            for v in m2.graph.inputs:
-                self.reg_value(v)
-            for n in m2.graph:
-                for v in n.outputs:
-                    self.reg_value(v)
-                self.reg_node(n)
+            self._reg_clone_graph(m2.graph)
             self.models.append(m2)
         elif k == "roundTrip":
             import onnx
@@ -294,23 +401,7 @@ class Real:
             m2 = self.serde.deserialize_model(proto2)
             for c in m2.device_configurations:
                 self.reg_cfg(c)
-            for v in m2.graph.inputs:
-                self.reg_value(v)
-            for n in m2.graph:
-                for v in n.outputs:
-                    if v.name:
-                        self.reg_value(v)
-            for n in m2.graph:
-                for v in n.inputs:
-                    if v is not None:
-                        self.reg_value(v)
-                for v in n.outputs:
-                    self.reg_value(v)
-                for nc in n.device_configurations:
-                    for s in nc.sharding_specs:
-                        self.reg_value(s.value)
-                    self.reg_cfg(nc.configuration)
-                self.reg_node(n)
+            self._reg_deser_graph(m2.graph)
             self.models.append(m2)
         elif k == "shardingOf":
             specs = self.nodes[op["n"]].sharding_of(self.values[op["v"]])
@@ -369,7 +460,7 @@ def oracle_nodangle(real: Real, part, hist_id, step, strict: bool):
     if strict:
         for m in real.models:
             reg = {id(c) for c in m.device_configurations}
-            for n in m.graph:
+            for n in real.all_nodes(m):
                 for nc in n.device_configurations:
                     if nc.configuration is None or id(nc.configuration) not in reg:
                         part.fail(
@@ -398,7 +489,7 @@ def oracle_names_current(real: Real, part, hist_id, step):
     for m, proto in zip(real.models, real.protos):  # protos of the state() call after this op
         if m.ir_version < 11 or proto is None:
             continue
-        for node, np_ in zip(m.graph, proto.graph.node):
+        for node, np_ in zip(real.all_nodes(m), real._proto_nodes(proto.graph)):
             ncs = node.device_configurations
             if len(ncs) != len(np_.device_configurations):
                 part.fail(f"serialized-count after {step['op']}", "number of serialized node configurations differs", {"history": hist_id, "step": step})
@@ -455,7 +546,7 @@ def real_facts(real: Real) -> dict:
         if any(not nm for nm in names) or len(set(names)) != len(names):
             devok = False
         regids = {id(c) for c in reg}
-        for n in m.graph:
+        for n in real.all_nodes(m):
             for nc in n.device_configurations:
                 if nc.configuration is None or id(nc.configuration) not in regids:
                     devok = False
@@ -495,9 +586,37 @@ class Gen:
 
     def model_values(self, model):
         real = self.real
-        vs = [real.vid[id(v)] for v in model.graph.inputs]
-        for n in model.graph:
+        vs = [real.vid[id(v)] for g in model.graphs() for v in g.inputs]
+        for n in real.all_nodes(model):
             vs += [real.vid[id(v)] for v in list(n.inputs) + list(n.outputs) if v is not None]
+        return sorted(set(vs))
+
+    def owner_of(self, graph):
+        """the node whose GRAPH attribute holds `graph` (None for a root graph)"""
+        real = self.real
+        for n in real.nodes:
+            if any(sg is graph for sg in real.subgraphs_of(n)):
+                return n
+        return None
+
+    def visible_values(self, graph):
+        """values a node appended to `graph` can use so that the model stays clonable: the graph's
+        inputs and node outputs, and for every enclosing graph its inputs and the outputs of the
+        nodes before the owner"""
+        real = self.real
+        vs = [real.vid[id(v)] for v in graph.inputs] + [real.vid[id(v)] for n in graph for v in n.outputs]
+        g, hops = graph, 0
+        while hops < 8:
+            owner = self.owner_of(g)
+            if owner is None or owner.graph is None:
+                break
+            pg = owner.graph
+            vs += [real.vid[id(v)] for v in pg.inputs]
+            for n in pg:
+                if n is owner:
+                    break
+                vs += [real.vid[id(v)] for v in n.outputs]
+            g, hops = pg, hops + 1
         return sorted(set(vs))
 
     def pick_value(self, model=None):
@@ -523,12 +642,16 @@ class Gen:
         nm = len(real.models)
         m = r.randrange(nm)
         model = real.models[m]
-        nodes_in = [real.nid[id(n)] for n in model.graph]
+        nodes_in = [real.nid[id(n)] for n in real.all_nodes(model)]
+        graphs_in = list(model.graphs())
+        # the graph a construction op works on: the root graph or (often, once they exist) a subgraph
+        graph = model.graph if (len(graphs_in) == 1 or r.random() < 0.45) else r.choice(graphs_in[1:])
+        g = real.gid[id(graph)]
         menu = [
             ("shard", 22), ("shardBad", 6), ("setStage", 6), ("addCfg", 5), ("addCfgBad", 2),
             ("removeCfg", 4), ("rename", 8), ("replaceInput", 10), ("resizeOutputs", 6),
             ("resizeInputs", 4), ("newNode", 7), ("newInput", 3), ("removeNode", 4), ("clone", 3),
-            ("roundTrip", 4), ("shardingOf", 2), ("removeCfgBad", 1),
+            ("roundTrip", 4), ("shardingOf", 2), ("removeCfgBad", 1), ("newSubgraph", 4),
         ]
         if not strict:
             menu += [("wildShard", 6), ("removeCfgNoCascade", 2), ("renameWild", 3)]
@@ -542,25 +665,34 @@ class Gen:
             node = real.nodes[n]
             return [real.vid[id(x)] for x in list(node.inputs) + list(node.outputs) if x is not None]
 
+        if kind == "newSubgraph":
+            if not nodes_in:
+                kind = "newNode"
+            else:
+                return {"op": "newSubgraph", "n": r.choice(nodes_in)}
         if kind == "newInput":
-            return {"op": "newInput", "m": m, "name": self.name("x"), "shape": self.shape()}
+            return {"op": "newInput", "g": g, "name": self.name("x"), "shape": self.shape()}
         if kind == "newNode":
             k = r.choice([0, 1, 2, 2, 3])
             ins = []
+            vis = self.visible_values(graph)
             for _ in range(k):
-                if real.values and r.random() < 0.9:
+                if vis and r.random() < 0.75:
+                    ins.append(r.choice(vis))  # keeps the model clonable (defined before use, in scope)
+                elif real.values and r.random() < 0.8:
                     ins.append(self.pick_value(model))
                 else:
                     ins.append(None)
             outs = [{"name": self.name("o"), "shape": self.shape()} for _ in range(r.choice([1, 1, 2, 3]))]
-            return {"op": "newNode", "m": m, "ins": ins, "outs": outs}
+            return {"op": "newNode", "g": g, "ins": ins, "outs": outs}
         if kind == "removeNode":
-            n = r.choice(nodes_in) if nodes_in and r.random() < 0.9 else r.randrange(len(real.nodes))
-            return {"op": "removeNode", "m": m, "n": n, "safe": r.random() < 0.6}
+            own = [real.nid[id(n)] for n in graph]
+            n = r.choice(own) if own and r.random() < 0.9 else r.randrange(len(real.nodes))
+            return {"op": "removeNode", "g": g, "n": n, "safe": r.random() < 0.6}
         if kind == "rename":
             v = self.pick_value(model)
             if v is None:
-                return {"op": "newInput", "m": m, "name": self.name("x"), "shape": self.shape()}
+                return {"op": "newInput", "g": g, "name": self.name("x"), "shape": self.shape()}
             return {"op": "rename", "v": v, "name": self.name("r")}
         if kind == "renameWild":
             self.tainted = True
@@ -623,7 +755,7 @@ class Gen:
             if strict:
                 io = [v for v in io if real.values[v].name]
             if not io:
-                return {"op": "newNode", "m": m, "ins": [self.pick_value(model)], "outs": [{"name": self.name("o"), "shape": self.shape()}]}
+                return {"op": "newNode", "g": g, "ins": [self.pick_value(model)], "outs": [{"name": self.name("o"), "shape": self.shape()}]}
             v = r.choice(io)
             rank = _rank(real.values[v])
             if rank is None:
@@ -665,7 +797,7 @@ class Gen:
         if kind == "replaceInput":
             cands = [i for i, nd_ in enumerate(real.nodes) if len(nd_.inputs) > 0]
             if not cands:
-                return {"op": "newNode", "m": m, "ins": [self.pick_value(model)], "outs": [{"name": self.name("o"), "shape": self.shape()}]}
+                return {"op": "newNode", "g": g, "ins": [self.pick_value(model)], "outs": [{"name": self.name("o"), "shape": self.shape()}]}
             n = r.choice(cands)
             ln = len(real.nodes[n].inputs)
             i = r.randrange(ln) if r.random() < 0.92 else r.choice([-1, ln, ln + 1])
@@ -778,15 +910,18 @@ def oracle_copy(real: Real, part, hist_id, ops, step_info, op, strict):
     """The new model (clone / round trip) carries the same annotations on its *own* objects."""
     src, dst = real.models[op["m"]], real.models[-1]
     if op["op"] == "roundTrip" and src.ir_version < 11:
-        for n in dst.graph:
+        root = {id(n) for n in dst.graph}
+        for n in real.all_nodes(dst):
             if n.device_configurations:
-                part.fail("roundtrip-ir<11", "annotations serialized below IR version 11", {"history": hist_id, "ops": ops, "step": step_info})
+                where = "main-graph-node" if id(n) in root else "nested-node"
+                part.fail(f"roundtrip-ir<11:{where}", "annotations serialized below IR version 11", {"history": hist_id, "ops": ops, "step": step_info})
         return
-    if len(list(src.graph)) != len(list(dst.graph)):
+    src_nodes, dst_nodes = real.all_nodes(src), real.all_nodes(dst)
+    if len(src_nodes) != len(dst_nodes):
         part.fail(f"{op['op']}-node-count", "node count differs", {"history": hist_id, "ops": ops, "step": step_info})
         return
-    src_vals = {id(v) for n in src.graph for v in list(n.inputs) + list(n.outputs) if v is not None}
-    for a, b in zip(src.graph, dst.graph):
+    src_vals = {id(v) for n in src_nodes for v in list(n.inputs) + list(n.outputs) if v is not None}
+    for a, b in zip(src_nodes, dst_nodes):
         da, db = a.device_configurations, b.device_configurations
         if len(da) != len(db):
             part.fail(f"{op['op']}-cfg-count", "number of node configurations differs", {"history": hist_id, "ops": ops, "step": step_info})
